@@ -100,6 +100,11 @@ func runC15(c Case, st *Stats) error {
 			return fmt.Errorf("step %d (%s): observation panicked: %q %q", i, what, oa.Panic, ob.Panic)
 		}
 		if d := DiffObs(ob, oa); d != "" {
+			if os.Getenv("VERIF_DEBUG") != "" {
+				ta, _ := readTree(dirA)
+				tb, _ := readTree(dirB)
+				fmt.Printf("MERGED DIR:\n%sTWIN DIR:\n%s", dumpImage(&memFS{files: ta}), dumpImage(&memFS{files: tb}))
+			}
 			return fmt.Errorf("step %d (%s): database with Merge differs from its twin without Merge (twin VS merged): %s", i, what, d)
 		}
 		return nil
